@@ -1,6 +1,7 @@
 package main
 
 import (
+	"os"
 	"encoding/json"
 	"fmt"
 	"regexp"
@@ -335,7 +336,7 @@ func applyLayout(lc *layoutCase) (edited string, from int, k int, ok bool) {
 			return "", 0, 0, false
 		}
 		return lc.Source + "\n", 1 << 30, 0, true
-	case "widen-string":
+	case "widen-string", "continue-string":
 		if lc.Line < 1 || lc.Line > len(lines) {
 			return "", 0, 0, false
 		}
@@ -345,7 +346,12 @@ func applyLayout(lc *layoutCase) (edited string, from int, k int, ok bool) {
 			return "", 0, 0, false
 		}
 		mid := loc[2] + (loc[3]-loc[2])/2
-		lines[lc.Line-1] = l[:mid] + "\n" + l[mid:]
+		nl := "\n"
+		if lc.Edit == "continue-string" {
+			// a backslash at the line end: the literal goes on in the next line
+			nl = "\\\n"
+		}
+		lines[lc.Line-1] = l[:mid] + nl + l[mid:]
 		return strings.Join(lines, "\n"), lc.Line, 1, true
 	}
 	return "", 0, 0, false
@@ -378,7 +384,7 @@ func judgeLayout(c *CheckCtx, rn Runner, lc *layoutCase) *Violation {
 	if sameRecs(want, got) {
 		return nil
 	}
-	if lc.Edit == "widen-string" {
+	if lc.Edit == "widen-string" || lc.Edit == "continue-string" {
 		// records located on the widened line itself may stay or move
 		alt := mapRows(base, func(r int) (int, bool) {
 			if r > from {
@@ -461,7 +467,7 @@ func init() {
 			return judgeLayout(c, s.BlackBox(), &lc)
 		},
 		Run: func(c *CheckCtx) {
-			c.rule = "pairs (program, layout edit): blank line / comment-only line / two such lines / a three-line =begin ... =end block comment inserted at a statement boundary (generated programs: every boundary the AST offers, at any nesting depth, including before else/end; corpus programs: boundaries from a conservative line scanner), final newline removed or doubled, a string literal widened by a real newline; modes plain and -i. Oracle: out(edited) == out(original) with rows at or after the edit shifted by the number of added lines. distinct_nontrivial = distinct (edit, mode, line, program) pairs whose original run printed at least one located record"
+			c.rule = "pairs (program, layout edit): blank line / comment-only line / two such lines / a three-line =begin ... =end block comment inserted at a statement boundary (generated programs: every boundary the AST offers, at any nesting depth, including before else/end; corpus programs: boundaries from a conservative line scanner), final newline removed or doubled, a string literal widened by a real newline or by a backslash-newline continuation; adjacency family: 38 complete statements x 28 following statements whose first token could continue an expression (if/unless/while/until, `[`, `(`, `!`, literals) plus 16 body headers (in/when/else/rescue/do/def ...) x the same 28, at top level and inside a method, the line inserted exactly between the two; modes plain and -i. Oracle: out(edited) == out(original) with rows at or after the edit shifted by the number of added lines. distinct_nontrivial = distinct (edit, mode, line, program) pairs whose original run printed at least one located record"
 			c.assumptions = []string{"pairs in which either run crashes or hangs are skipped (C01/C02)", "for a widened string literal, records located on the literal's own line may stay or move"}
 			items := Corpus()
 			var jobs []*layoutCase
@@ -484,6 +490,11 @@ func init() {
 			}
 			// corpus programs
 			nCorpus := c.N(60, len(items))
+			nGen := c.N(60, 1500)
+			if os.Getenv("VERIF_C06_FAMILY") == "adjacency" {
+				// development aid: only the adjacency family
+				nCorpus, nGen = 0, 0
+			}
 			for k := 0; k < nCorpus; k++ {
 				it := items[k%len(items)]
 				if c.Quick() {
@@ -507,7 +518,6 @@ func init() {
 				}
 			}
 			// generated programs: every AST boundary
-			nGen := c.N(60, 1500)
 			for k := 0; k < nGen; k++ {
 				p := genProgram(r, GenOpts{Classes: true, MultiLine: true, Stmts: 5 + r.Intn(10)})
 				rd := p.Render(nil)
@@ -529,11 +539,38 @@ func init() {
 				}
 				for i, l := range rd.Lines {
 					if strLitRe.MatchString(l.Text) && !l.InLiteral && r.Chance(1, 2) {
-						jobs = append(jobs, &layoutCase{Source: src, Edit: "widen-string", Line: i + 1, Mode: Pick(r, modes), Origin: "generated", Context: "string-literal"})
+						jobs = append(jobs, &layoutCase{Source: src, Edit: Pick(r, []string{"widen-string", "widen-string", "continue-string"}), Line: i + 1, Mode: Pick(r, modes), Origin: "generated", Context: "string-literal"})
 					}
 				}
 				for _, e := range []string{"drop-final-newline", "double-final-newline"} {
 					jobs = append(jobs, &layoutCase{Source: src, Edit: e, Mode: Pick(r, modes), Origin: "generated", Context: "eof"})
+				}
+			}
+			// adjacency family: statement pairs whose second member could continue
+			// the first (c06adj.go); thorough enumerates every pair
+			adj := func(ai, hi, bi int, top bool) {
+				src, b, ctx := buildAdjacency(ai, hi, bi, top)
+				ed := Pick(r, edits)
+				jobs = append(jobs, &layoutCase{Source: src, Edit: ed, Text: textFor(ed), Line: b, Mode: Pick(r, modes), Origin: "adjacency", Context: ctx})
+			}
+			if c.Quick() {
+				for k := 0; k < 300; k++ {
+					if r.Chance(1, 3) {
+						adj(0, r.Intn(len(adjHeaders)), r.Intn(len(adjSecond)), false)
+					} else {
+						adj(r.Intn(len(adjFirst)), -1, r.Intn(len(adjSecond)), r.Chance(1, 4))
+					}
+				}
+			} else {
+				for bi := range adjSecond {
+					for ai := range adjFirst {
+						adj(ai, -1, bi, false)
+						adj(ai, -1, bi, true)
+					}
+					for hi := range adjHeaders {
+						adj(0, hi, bi, false)
+						adj(0, hi, bi, false)
+					}
 				}
 			}
 			c.Extra("pairs", len(jobs))
